@@ -519,3 +519,47 @@ def pipeline_vc(S, prefix='pipeline'):
     S.run_paths(prefix, body, active=[c.key for c in contracts])
     S.interp.call_hooks = []
     S.interp.range_bound = 3
+
+
+
+def restore_twice_vc(S, prefix='restore-twice'):
+    """two entries with the same original location restored one after the
+    other in one run (reply '0-1' / '0,1'): the second must be refused once
+    the first is in place (C06 over a history inside one run)"""
+    def body(V):
+        ctx = V.ctx
+        _cmd, _h, restorer = restorer_of(V)
+        fs = fs_of(V.I)
+        fs.fault_free = True
+        cls = V.I.lookup('trashcli.restore.trashed_file', 'TrashedFile')
+        loc = arg_str('original_location')
+        tf1 = V.I.call(cls, [loc, None, arg_str('info1'), arg_str('payload1')], {})
+        tf2 = V.I.call(cls, [loc, None, arg_str('info2'), arg_str('payload2')], {})
+        l = loc.t
+        # the trash entries are not the destination nor above/below it
+        for t in (tf1.items[2].t, tf1.items[3].t, tf2.items[2].t, tf2.items[3].t):
+            ctx.assume(z3.And(t != l, z3.Not(z3.PrefixOf(z3.Concat(t, SV('/')), l)),
+                              z3.Not(z3.PrefixOf(z3.Concat(l, SV('/')), t))))
+        ctx.assume(fs.lkind(tf1.items[3].t) != ABSENT)
+        ctx.assume(fs.lkind(tf1.items[3].t) != DIR)
+        fv = S.resolve('trashcli.restore.restorer', 'Restorer.restore_trashed_file')
+        S.resolve('trashcli.restore.file_system',
+                  'RealRestoreReadFileSystem.path_exists')
+        try:
+            V.I.call_function(fv, [], {'self': restorer, 'trashed_file': tf1,
+                                       'overwrite': False})
+        except PyExc:
+            return          # the first restore was itself refused / failed
+        n1 = len(fs.events)
+        fs.frame_lkind(l)
+        try:
+            V.I.call_function(fv, [], {'self': restorer, 'trashed_file': tf2,
+                                       'overwrite': False})
+            refused = False
+        except PyExc as pe:
+            refused = len(fs.events) == n1
+        ctx.oblige(prefix + '/second-entry-for-the-same-path-is-refused',
+                   z3.BoolVal(refused))
+        ctx.cover(prefix + '/cover-end')
+
+    S.run_paths(prefix, body)
